@@ -84,14 +84,25 @@ func (p *Prog) JS() string {
 	case "loop":
 		sb.WriteString("for(;;){}\n")
 	case "emitbad":
-		sb.WriteString("_.out(function(){}); return _.bindings;\n")
+		if len(p.Ops)%3 == 2 {
+			// an emitted value whose export runs script code that throws
+			sb.WriteString("_.out({get a() { throw \"boom\"; }}); return _.bindings;\n")
+		} else {
+			sb.WriteString("_.out(function(){}); return _.bindings;\n")
+		}
 	case "ifeq":
 		sb.WriteString(fmt.Sprintf("return (b[%s] === %s) ? _.bindings : null;\n", jsText(p.K), jsText(p.J)))
 	case "retbad":
-		if len(p.Ops)%2 == 0 {
+		switch len(p.Ops) % 4 {
+		case 0:
 			sb.WriteString("return {x: function(){}};\n")
-		} else {
+		case 1:
 			sb.WriteString("return {x: 0/0, y: 1};\n")
+		case 2:
+			// exporting the result runs a getter that throws (D50: crashed Exec)
+			sb.WriteString("return {get a() { throw \"boom\"; }, y: 1};\n")
+		default:
+			sb.WriteString("return {y: {z: [1, {get a() { throw new Error(\"deep\"); }}]}};\n")
 		}
 	}
 	return sb.String()
